@@ -1383,7 +1383,7 @@ func TestC17_Timing(t *testing.T) {
 		}
 		cases = []*Case{&rc}
 	} else {
-		n := 5 // 4 bounded cases + the no-deadline control
+		n := 7 // one case of every timing kind (cancellation without deadline + descendant included)
 		if stats.Tier() == "thorough" {
 			n = 60
 		}
